@@ -764,4 +764,182 @@ theorem sel3_textform_find (root : Val) (rl : Bool) {toksP : List Str} {p : Pos}
     (split_cond k sTextFn opx op vq v (Or.inr hk.plain) condKey_text hop hlit hv) (sel2_tok_text_quoted op v hopc hv) hopc hg
     hrest (hcont gs hn) fuel' (by omega)
 
+/-! ### token level: the predicate and chained forms behind any spelled path -/
+
+/-- **Predicate forms, token level.**  `toksP` spell the position of the record list (plain key names, index steps in
+any spelling).  `toksP ++ [[k op v], f]`, `toksP ++ [k[text() op v], '..', f]` and — when the last token of `toksP` is
+a key `name` — the merged `… name[k op v], f` select `f` of exactly the records whose `k` passes. -/
+theorem sel3_pred_spelled (t : Val) (rl : Bool) {toksP : List Str} {p : Pos} {lc : Cls} {rs : List Val} (k f opx op vq v : Str)
+    (hs : Sel3Spells toksP t p (.list lc rs)) (hk : FieldKey k) (hf : PlainKey f) (hop : OpSpell opx op) (hlit : LitSpell vq v)
+    (hv : PlainLit v) (hrs : ∀ r ∈ rs, isDict r = true)
+    (hg : ∀ c kvs' kv, Val.dict c kvs' ∈ rs → lookup k kvs' = some kv → textGuard kv (.str v) = false)
+    (fuel : Nat) (hfuel : fuel ≥ 6 * toksP.length + rs.length + 14) :
+    (∀ tail ∈ [[bracket (k ++ opx ++ vq), f], [k ++ bracket (sTextFn ++ opx ++ vq), ['.', '.'], f]],
+      Sel2Coll t rl (findD fuel t [] false true (toksP ++ tail) (.at []) rl slash) (somes (rs.map (condOutcome k f op (.str v))))) ∧
+    (∀ toks' name, toksP = toks' ++ [name] → PlainKey name →
+      Sel2Coll t rl (findD fuel t [] false true (toks' ++ [name ++ bracket (k ++ opx ++ vq), f]) (.at []) rl slash)
+        (somes (rs.map (condOutcome k f op (.str v))))) := by
+  have hget := hs.spells.getAt
+  refine ⟨?_, ?_⟩
+  · intro tail htail
+    simp only [List.mem_cons, List.not_mem_nil, or_false] at htail
+    rcases htail with rfl | rfl
+    · rw [← sel2Sel_fieldOf]
+      exact sel3_cond_find t rl k opx op vq v [f] (fieldOf f) 1 hs hk hop hlit hv hrs hg (by simp)
+        (fun gs _ j c kvs' hj fu hfu => sel2_field_cont t rl _ c kvs' f _ (sel2_getAt_snoc_idx hget hj) hf.keyTok fu hfu)
+        fuel (by omega)
+    · rw [← sel2Sel_fieldOf]
+      exact sel3_textform_find t rl k opx op vq v [f] (fieldOf f) 1 hs hk hop hlit hv hrs hg (by simp)
+        (fun gs _ j c kvs' hj fu hfu => sel2_field_cont t rl _ c kvs' f _ (sel2_getAt_snoc_idx hget hj) hf.keyTok fu hfu)
+        fuel (by omega)
+  · intro toks' name htoks hname
+    subst htoks
+    obtain ⟨p', cls, kvs, rfl, hs', hl⟩ := sel3_spells_snoc_key_inv name hname toks' _ _ _ hs
+    rw [← sel2Sel_fieldOf]
+    exact sel3_keycond_find t rl name k opx op vq v lc rs [f] (fieldOf f) 1 hs' hname hl hk hop hlit hv hrs hg (by simp)
+      (fun gs _ j c kvs' hj fu hfu => sel2_field_cont t rl _ c kvs' f _ (sel2_getAt_snoc_idx hget hj) hf.keyTok fu hfu)
+      fuel (by simp at hfuel; omega)
+
+/-- **Chained selection, token level**, for both values of `return_lists`; `items` of an outer record is a list of dict
+records or one dict record (`Sel3InnerOK`). -/
+theorem sel3_chained_spelled (t : Val) (rl : Bool) {toksP : List Str} {p : Pos} {lc : Cls} {rs : List Val}
+    (k1 opx1 op1 vq1 v1 items k2 opx2 op2 vq2 v2 f : Str)
+    (hs : Sel3Spells toksP t p (.list lc rs)) (hk1 : FieldKey k1) (hop1 : OpSpell opx1 op1) (hlit1 : LitSpell vq1 v1)
+    (hv1 : PlainLit v1) (hitems : PlainKey items) (hk2 : FieldKey k2) (hop2 : OpSpell opx2 op2) (hlit2 : LitSpell vq2 v2)
+    (hv2 : PlainLit v2) (hf : PlainKey f) (hrs : ∀ r ∈ rs, isDict r = true)
+    (hg : ∀ c kvs' kv, Val.dict c kvs' ∈ rs → lookup k1 kvs' = some kv → textGuard kv (.str v1) = false)
+    (hin : Sel3InnerOK items k2 (.str v2) rs)
+    (fuel : Nat) (hfuel : fuel ≥ 10 * toksP.length + rs.length + (rs.map (sel2InnerLen items)).sum + 30) :
+    Sel2Coll t rl
+      (findD fuel t [] false true (toksP ++ [bracket (k1 ++ opx1 ++ vq1), items ++ bracket (k2 ++ opx2 ++ vq2), f]) (.at []) rl slash)
+      (sel3Chained k1 op1 (.str v1) items k2 f op2 (.str v2) rl rs) ∧
+    (∀ toks' name, toksP = toks' ++ [name] → PlainKey name →
+      Sel2Coll t rl
+        (findD fuel t [] false true (toks' ++ [name ++ bracket (k1 ++ opx1 ++ vq1), items ++ bracket (k2 ++ opx2 ++ vq2), f])
+          (.at []) rl slash)
+        (sel3Chained k1 op1 (.str v1) items k2 f op2 (.str v2) rl rs)) := by
+  have hpl := hs.pos_length
+  have hcont : ∀ gs, Sel3Norm gs t p (.list lc rs) → ∀ (j : Nat) (c : Cls) (kvs' : List (Str × Val)),
+      rs[j]? = some (.dict c kvs') → ∀ fu ≥ 4 * toksP.length + (rs.map (sel2InnerLen items)).sum + 15, Sel2Out t
+        (findD fu t [] false false [items ++ bracket (k2 ++ opx2 ++ vq2), f] (.at (p ++ [.idx j])) rl
+          ('/' :: sel2Render (gs ++ [.br (natStr j)])))
+        (sel3Inner items k2 f op2 (.str v2) rl (.dict c kvs')) := by
+    intro gs hn j c kvs' hj fu hfu
+    exact sel3_inner_cont t rl _ _ c kvs' items k2 f opx2 op2 vq2 v2 _ (hn.snoc_idx hj) hitems hk2 hf hop2 hlit2 hv2
+      (fun x hx => hin c kvs' x (List.mem_of_getElem? hj) hx) (sel2_le_sum (sel2InnerLen items) rs j _ hj) fu
+      (by simp at hfu ⊢; omega)
+  refine ⟨?_, ?_⟩
+  · exact sel3_cond_find t rl k1 opx1 op1 vq1 v1 _ _ _ hs hk1 hop1 hlit1 hv1 hrs hg (by simp) hcont fuel (by omega)
+  · intro toks' name htoks hname
+    subst htoks
+    obtain ⟨p', cls, kvs, rfl, hs', hl⟩ := sel3_spells_snoc_key_inv name hname toks' _ _ _ hs
+    exact sel3_keycond_find t rl name k1 opx1 op1 vq1 v1 lc rs _ _ _ hs' hname hl hk1 hop1 hlit1 hv1 hrs hg (by simp) hcont fuel
+      (by simp at hfuel ⊢; omega)
+
+/-! ### tokenisation of `spelling ++ selecting tail` -/
+
+theorem sel3_tokenize_lead (lead : Lead) (s : Str) : tokenize (leadStr lead ++ s) = tokenize s := by
+  cases lead <;> simp [leadStr, tokenize_slash]
+
+theorem sel3_dropSlash_append (s Y : Str) (hs : s ≠ []) : dropSlash s ++ Y = dropSlash (s ++ Y) := by
+  cases s with
+  | nil => exact absurd rfl hs
+  | cons c s' => by_cases h : c = '/' <;> simp [dropSlash, h]
+
+theorem sel3_renderSteps_ne_nil (steps : List StepSp) (hne : steps ≠ []) : renderSteps steps ≠ [] := by
+  cases steps with
+  | nil => exact absurd rfl hne
+  | cons s r =>
+    obtain ⟨ch, rs, hrs, _⟩ := renderStep_head s
+    rw [renderSteps_cons, hrs]; simp
+
+/-- the prefix (none, `/`, `//`) of a spelling does not matter, whatever follows -/
+theorem sel3_tokenize_sp (lead : Lead) (steps : List StepSp) (Y : Str) (hne : steps ≠ []) :
+    tokenize (renderSp lead steps ++ Y) = tokenize (renderSteps steps ++ Y) := by
+  unfold renderSp
+  rw [List.append_assoc, sel3_tokenize_lead, sel3_dropSlash_append _ _ (sel3_renderSteps_ne_nil steps hne), tokenize_dropSlash]
+
+theorem sel3_tokenize_rb_lb (X Y : Str) : tokenize (X ++ ']' :: '[' :: Y) = tokenize (X ++ [']']) ++ tokenize ('[' :: Y) := by
+  unfold tokenize
+  rw [fixBr_append_rb_lb, splitChar_append_sep, List.filter_append, List.map_append, fixBr_cons_ne '[' _ (by decide)]
+
+theorem sel3_tokenize_render_key (k : Str) (gs : List GSeg) (hg : GoodG (.key k :: gs)) :
+    tokenize (k ++ sel2Render gs) = sel2Toks (.key k :: gs) := by
+  rw [← sel2_tokenize _ hg, show sel2Render (.key k :: gs) = '/' :: (k ++ sel2Render gs) by simp [sel2Render, sel2RenderSeg],
+    tokenize_slash, tokenize_slash]
+
+theorem sel3_tokenize_render_br (c : Str) (gs : List GSeg) (hg : GoodG (.br c :: gs)) :
+    tokenize ('[' :: (c ++ ']' :: sel2Render gs)) = sel2Toks (.br c :: gs) := by
+  rw [← sel2_tokenize _ hg, show sel2Render (.br c :: gs) = '[' :: (c ++ ']' :: sel2Render gs) by simp [sel2Render, sel2RenderSeg, bracket],
+    tokenize_slash]
+
+theorem sel3_renderSteps_snoc (steps : List StepSp) (s : StepSp) : renderSteps (steps ++ [s]) = renderSteps steps ++ renderStep s := by
+  simp [renderSteps]
+
+theorem sel3_plainSteps_append {a b : List StepSp} (h : PlainSteps (a ++ b)) : PlainSteps a ∧ PlainSteps b := by
+  induction a with
+  | nil => exact ⟨trivial, h⟩
+  | cons s r ih =>
+    cases s with
+    | key k => exact ⟨⟨h.1, (ih h.2).1⟩, (ih h.2).2⟩
+    | idx e sep => exact ⟨(ih h).1, (ih h).2⟩
+
+/-- a key step always starts a token of its own -/
+theorem sel3_toksOf_snoc_key (steps : List StepSp) (k : Str) : toksOf (steps ++ [.key k]) = toksOf steps ++ [k] := by
+  induction steps using toksOf.induct with
+  | case1 => simp [toksOf]
+  | case2 k' e r ih => simp [toksOf, ih]
+  | case3 k' r hne ih =>
+    cases r with
+    | nil => simp [toksOf]
+    | cons s r' =>
+      rw [List.cons_append, toksOf_key_cons k' _ (by
+        intro e r'' h
+        cases s with
+        | key k2 => simp at h
+        | idx e2 sep2 =>
+          simp only [List.cons_append, List.cons.injEq, StepSp.idx.injEq] at h
+          exact hne e r' (by rw [h.1.1, h.1.2])), ih, toksOf_key_cons k' _ hne]
+      simp
+  | case4 e sep r ih => simp [toksOf, ih]
+
+/-- spelling followed by a tail that starts with a key piece (`P/k[text()…]/../f`) -/
+theorem sel3_tokenize_sp_key (lead : Lead) (steps : List StepSp) (k : Str) (gs : List GSeg) (hp : PlainSteps steps)
+    (hne : steps ≠ []) (hg : GoodG (.key k :: gs)) :
+    tokenize (renderSp lead steps ++ sel2Render (.key k :: gs)) = toksOf steps ++ sel2Toks (.key k :: gs) := by
+  rw [sel3_tokenize_sp _ _ _ hne, show sel2Render (.key k :: gs) = '/' :: (k ++ sel2Render gs) by simp [sel2Render, sel2RenderSeg],
+    tokenize_append_slash, tokenize_steps steps hp, sel3_tokenize_render_key k gs hg]
+
+/-- spelling that ends in a key, followed by a bracket piece: `… name[c]` is one token -/
+theorem sel3_tokenize_sp_key_br (lead : Lead) (steps' : List StepSp) (name c : Str) (gs : List GSeg)
+    (hp : PlainSteps (steps' ++ [.key name])) (hg : GoodG (.br c :: gs)) :
+    tokenize (renderSp lead (steps' ++ [.key name]) ++ sel2Render (.br c :: gs))
+      = toksOf steps' ++ (name ++ bracket c) :: sel2Toks gs := by
+  obtain ⟨hp', hpn⟩ := sel3_plainSteps_append hp
+  have hname : PlainKey name := hpn.1
+  rw [sel3_tokenize_sp _ _ _ (by simp), sel3_renderSteps_snoc,
+    show renderSteps steps' ++ renderStep (.key name) ++ sel2Render (.br c :: gs)
+      = renderSteps steps' ++ '/' :: (name ++ sel2Render (.br c :: gs)) by simp [renderStep],
+    tokenize_append_slash, tokenize_steps steps' hp', sel3_tokenize_render_key name _ ⟨hname.gKey, hg⟩]
+  simp [sel2Toks]
+
+/-- spelling that ends in an index, followed by a bracket piece: `[c]` is a token of its own -/
+theorem sel3_tokenize_sp_idx_br (lead : Lead) (steps' : List StepSp) (e : IdxSp) (sep : Bool) (c : Str) (gs : List GSeg)
+    (hp : PlainSteps (steps' ++ [.idx e sep])) (hg : GoodG (.br c :: gs)) :
+    tokenize (renderSp lead (steps' ++ [.idx e sep]) ++ sel2Render (.br c :: gs))
+      = toksOf (steps' ++ [.idx e sep]) ++ bracket c :: sel2Toks gs := by
+  have hform : ∃ A0, renderStep (.idx e sep) = A0 ++ [']'] := by
+    cases sep
+    · exact ⟨'[' :: e.text, by simp [renderStep, bracket]⟩
+    · exact ⟨'/' :: '[' :: e.text, by simp [renderStep, bracket]⟩
+  obtain ⟨A0, hA0⟩ := hform
+  have hsteps : renderSteps (steps' ++ [.idx e sep]) = (renderSteps steps' ++ A0) ++ [']'] := by
+    rw [sel3_renderSteps_snoc, hA0, List.append_assoc]
+  rw [sel3_tokenize_sp _ _ _ (by simp), hsteps,
+    show sel2Render (.br c :: gs) = '[' :: (c ++ ']' :: sel2Render gs) by simp [sel2Render, sel2RenderSeg, bracket],
+    show (renderSteps steps' ++ A0) ++ [']'] ++ '[' :: (c ++ ']' :: sel2Render gs)
+      = (renderSteps steps' ++ A0) ++ ']' :: '[' :: (c ++ ']' :: sel2Render gs) by simp,
+    sel3_tokenize_rb_lb, ← hsteps, tokenize_steps _ hp, sel3_tokenize_render_br c gs hg]
+  simp [sel2Toks]
+
 end N0.XPath
